@@ -168,6 +168,9 @@ def timing(chk):
         # generator audit 2026-10-02: one family per loop of the parser (a loop that recurses or re-scans shows here as a crash or as super-linear time)
         "points": lambda n: "MACRO m OBS LAYER l ; POLYGON " + "0 0 1 1 2 2 " * (n // 2) + "; END END m",
         "props": lambda n: "MACRO m PROPERTY " + 'p 1.5 q "s" ' * n + "; END m",
+        # fourth seeded wave (C11-m12): many separate PROPERTY statements in one macro / one pin (the vector of properties is carried from statement to statement)
+        "prop_stmts": lambda n: "MACRO m\n" + "PROPERTY p 1.5 ;\n" * (n // 4) + "END m",
+        "pin_prop_stmts": lambda n: "MACRO m PIN a\n" + 'PROPERTY q "s" ;\n' * (n // 4) + "END a END m",
         "pins": lambda n: "MACRO m\n" + "PIN p PORT LAYER l ; END END p\n" * (n // 2) + "END m",
         "layers": lambda n: "MACRO m OBS\n" + "LAYER l ; VIA 0 0 v ;\n" * n + "END END m",
         "propdefs": lambda n: "PROPERTYDEFINITIONS\n" + "MACRO p REAL RANGE 0 1 0.5 ;\n" * n + "END PROPERTYDEFINITIONS",
@@ -289,6 +292,10 @@ def run(chk, replay=None):
     chk.proof_leg(["Lef/LefCheck.vo", "Lef/LefPack.vo"], "Properties/C11.v",
                   ["Lef/LefLex_proofs.v", "Lef/LefParse_proofs.v", "Lef/LefSafety_proofs.v", "Lef/LefCount_proofs.v"], "Properties.C11")
     kernel_tie_leg(chk, "lef_parse")      # LefParser token helpers and parse_density generated from lef21/src/read.rs = Lef/LefParse.v (Properties/KernelsLef.v)
+    kernel_tie_leg(chk, "lef_parse2")     # LefParser::parse_units / parse_site_def / parse_macro_class / parse_property / parse_geometry .. (Gen/KernelsLefRead2Gen.v) = Lef/LefParse.v
+    kernel_tie_leg(chk, "lef_parse3")     # LefParser::parse_layer_geometries / parse_via_shape / parse_via_layer_geometries / parse_obstructions / parse_port / parse_property_definitions = Lef/LefParse.v
+    kernel_tie_leg(chk, "lef_parse_lib")  # LefParser::parse_pin, the whole function = parse_pin / pin_loop of Lef/LefParse.v
+    kernel_tie_leg(chk, "lef_parse_macro")  # LefParser::parse_macro, the whole function = parse_macro / macro_loop of Lef/LefParse.v
     chk.assumptions += [
         "rust_decimal's Decimal::from_str is an external library: specified in Lef/LefDec.v from its source and validated by the correspondence; panics inside it are outside the model",
         "derive_builder `build()` and std formatting are modelled by their documented behaviour",
